@@ -54,8 +54,13 @@
      C07_href_equiv, C07_eight_setters_partial, C07_eight_histories, C07_statement_eight_all
                               href (= C01, outside classes 11-14) up to C01's Overflow arm (a new URL longer than
                               u32::MAX bytes: the code keeps the old URL); eight setters, all histories
-   The gap: the host and pathname setters, hostname on file URLs (class 4 of Known_C07 covers them all), href
-   values whose URL exceeds u32::MAX bytes, and host_parse_ok in place of hosts_agree.
+     C07_host_standard_portless, C07_host_portless_equiv
+                              host on values without a port part (no ':' outside brackets): the Standard's host
+                              setter is its hostname setter there, and so is url::quirks::set_host outside classes
+                              2, 3, 4, 7 of Known_C07 - one assignment preserves corrS
+   The gap: the host setter on values with a port part, the pathname setter, hostname on file URLs (class 4 of
+   Known_C07 covers them all), href values whose URL exceeds u32::MAX bytes, and host_parse_ok in place of
+   hosts_agree.
    It is covered by the fixed-seed differential run implementation <-> specification model of the
    harness (a test). *)
 From Coq Require Import String.
@@ -69,7 +74,8 @@ From RU Require Import Base.Prelude Base.Utf8 Model.AsciiSet Gen.Tables Model.Pe
   Model.Host Spec.WhatwgHost Spec.WhatwgHostParse Proofs.C01_EqAuthSpec Proofs.C01_EqAuthModel Proofs.C01_EqClasses2 Proofs.C01_EqAuthHost
   Proofs.C07_EqAuthParse Proofs.C07_EqAuthHost
   Proofs.C07_SpecHost Proofs.C07_EqHostname Proofs.C07_EqSeven
-  Proofs.C02_AuthParts Proofs.C03_ReachParts Proofs.C01_EqRef Proofs.C07_EqRel Proofs.C07_SpecInv Proofs.C07_ParseExtra Proofs.C07_EqParseAll.
+  Proofs.C02_AuthParts Proofs.C03_ReachParts Proofs.C01_EqRef Proofs.C07_EqRel Proofs.C07_SpecInv Proofs.C07_ParseExtra Proofs.C07_EqParseAll
+  Proofs.C07_SpecHost2 Proofs.C07_EqHostNoPort.
 
 (* ---------- the statement ---------- *)
 
@@ -1037,6 +1043,39 @@ Proof.
     split; [repeat constructor; vm_compute; auto | exact I].
   - eexists. split; [vm_compute; reflexivity|]. split; vm_compute; repeat split.
 Qed.
+
+(* ---------- host, on values without a port part ---------- *)
+
+(* the Standard's host setter is its hostname setter on a value whose host-state scan does not stop at a ':' outside
+   brackets (no port part), for a URL whose scheme is not "file" *)
+Theorem C07_host_standard_portless : forall shp su v, list_eqb (su_scheme su) str_file = false ->
+  snd (hscan (is_special su) false [] (notnl v)) = false ->
+  spec_set shp SetHost su v = spec_set shp SetHostname su v.
+Proof. exact spec_host_nocolon. Qed.
+Print Assumptions C07_host_standard_portless.
+
+(* host on such values (host_value_portless: no ':' outside brackets before the first of / ? # and, for special
+   schemes, \), outside classes 2, 3, 4, 7 of Known_C07: url::quirks::set_host parses no new port and refuses the
+   empty host on the same records as set_hostname (class 7, F-C07-8, is exactly where it forgets the password), so it
+   is the Standard's on every corrS-related pair.  GAP: values with a port part. *)
+Theorem C07_host_portless_equiv : forall dbg hp ho hd shp shs, host_fns_ok hp ho hd shp shs ->
+  forall u su v, corrS dbg shs u su -> usv_list v -> known_c07 u QHost v = 0 -> host_value_portless u v = true ->
+  exists u' su', model_set dbg hp ho hd QHost u v = Some u' /\ spec_step shp QHost su v = Some su'
+    /\ corrS dbg shs u' su' /\ model_api dbg u' = Some (spec_api_list shs su').
+Proof. exact host_portless_step_api. Qed.
+Check C07_host_portless_equiv : forall dbg hp ho hd shp shs, host_fns_ok hp ho hd shp shs ->
+  forall u su v, corrS dbg shs u su -> usv_list v -> known_c07 u QHost v = 0 ->
+  negb (host_colon (no_tnl v) (st_is_special (scheme_type_of (u_scheme_or_empty u)))) = true ->
+  exists u' su', model_set dbg hp ho hd QHost u v = Some u' /\ spec_step shp QHost su v = Some su'
+    /\ corrS dbg shs u' su' /\ model_api dbg u' = Some (spec_api_list shs su').
+Print Assumptions C07_host_portless_equiv.
+
+(* the hypotheses can be met: "a://:pw@h:8/p" .host = "x.y/z" *)
+Example C07_host_portless_inhabited :
+  exists u, parse_url true ok_hp ok_ho toy_hd None None (str "a://:pw@h:8/p") = POk u
+    /\ known_c07 u QHost (str "x.y/z") = 0 /\ host_value_portless u (str "x.y/z") = true
+    /\ option_map q_href (model_set true ok_hp ok_ho toy_hd QHost u (str "x.y/z")) = Some (str "a://:pw@x.y:8/p").
+Proof. eexists. split; [vm_compute; reflexivity|]. vm_compute. repeat split. Qed.
 
 (* ---------- clauses of the Standard's setters, for all records and values ---------- *)
 
